@@ -161,6 +161,7 @@ PROPS["C03"] = {
     "rule": "all widths, N in {4,5,2}, coefficient styles (arbitrary, integrator, double integrator, identity), fed-back histories, accumulator-overflow cases",
 }
 PROPS["C04"] = {
+    "modules": ["C04", "C04F"],
     "families": ["biquad", "fbiquad"],
     "n_quick": 150000, "n_thorough": 1500000,
     "clauses_proved": [
@@ -168,9 +169,10 @@ PROPS["C04"] = {
         "N = 4: state after two equal outputs under constant input is (x, x, lim, lim), independent of L; continuations identical (state4_after_two, no_windup4, no_windup4_recovery); N = 2 likewise (state2_after_two, no_windup2)",
         "N = 5: the four stored samples agree; continuation agrees given equal remainder (no_windup5_partial, no_windup5_recovery_partial)",
         "NEGATION: N = 5 response after saturation depends on L through the carried remainder (no_windup5_full_false): known finding F-C04",
+        "FLOAT sample types (Props/C04F.lean, over an abstract carrier with uninterpreted + - *, needing only three maxNum/minNum facts, so rounding, infinities and NaN samples are covered): every output of N = 4, 5, 2 and of every run within non-NaN limits mn <= mx (fclip_in_limits, fbiquad_in_limits, fbiquad_run_in_limits); no wind-up for N = 4 and N = 2 (fbiquad4_no_windup, fbiquad2_no_windup)",
     ],
     "clauses_explored": [
-        "f32/f64 limits and bit-identical recovery (native, compared between saturation durations on the implementation)",
+        "that Rust's f32/f64 max/min satisfy the three clamp laws (IEEE maxNum/minNum; tied bit-exactly through the fbiquad correspondence incl. NaN/infinite samples) and bit-identical recovery on the implementation (native)",
     ],
     "level_text": "Limit and no-wind-up clauses are theorems for all widths and state forms; the N = 5 literal 'bit-identical' claim is false (proved negation, known finding, <= 1 LSB).",
     "level_note": "Model: as C03. Floats: explored natively only.",
